@@ -1034,4 +1034,61 @@ theorem norm_main (c c' : Cfg) (hp : ReparseParams c c') (s : Str) (i : URLInfo)
   · simp only [hs, hhn, hport, hpath, hquery]
     exact ⟨trivial, trivial, trivial, trivial, trivial⟩
 
+/-! ## Property theorems -/
+
+/-- the normal form has no character at or below the space: what `host_printable` asks of the
+host name (everything else is proved).  It follows from the C0 test of `parse`, the forbidden
+set holding the space, and IDNA / `str.lower` / `default_scheme` yielding no control character;
+the oracle checks it on every generated URL. -/
+def HostPrintable (i : URLInfo) : Prop := ∀ hn, i.hostname = some hn → ∀ x ∈ hn, 0x20 < x
+
+/-- **C10, re-parse.**  For every string `s` the parser accepts with a network scheme, under any
+document encoding that satisfies `ReparseParams`, the normal form `n = parse(s).url` is accepted
+again and gives back the same scheme, host name, port, path and query. -/
+theorem norm_reparse (c c' : Cfg) (hp : ReparseParams c c') (s : Str) (i : URLInfo) (n : Str)
+    (hparse : parse c s = .ok i) (hnet : (netScheme? i.scheme).isSome = true) (hurl : i.url = .ok n)
+    (hprint : HostPrintable i) :
+    ∃ j, parse c' n = .ok j ∧
+      (j.scheme, j.hostname, j.port, j.path, j.query) = (i.scheme, i.hostname, i.port, i.path, i.query) := by
+  cases hns : netScheme? i.scheme with
+  | none => rw [hns] at hnet; cases hnet
+  | some p =>
+    obtain ⟨sch, dp⟩ := p
+    obtain ⟨j, hj, _, h1, h2, h3, h4, h5⟩ := norm_main c c' hp s i sch dp n hparse hns hurl hprint
+    exact ⟨j, hj, by rw [h1, h2, h3, h4, h5]⟩
+
+/-- **C10, idempotence.**  Normalising the normal form changes nothing: `parse(n).url = n`. -/
+theorem norm_idem (c c' : Cfg) (hp : ReparseParams c c') (s : Str) (i : URLInfo) (n : Str)
+    (hparse : parse c s = .ok i) (hnet : (netScheme? i.scheme).isSome = true) (hurl : i.url = .ok n)
+    (hprint : HostPrintable i) :
+    ∃ j, parse c' n = .ok j ∧ j.url = .ok n := by
+  cases hns : netScheme? i.scheme with
+  | none => rw [hns] at hnet; cases hnet
+  | some p =>
+    obtain ⟨sch, dp⟩ := p
+    obtain ⟨j, hj, hu, _⟩ := norm_main c c' hp s i sch dp n hparse hns hurl hprint
+    exact ⟨j, hj, hu⟩
+
+/-- the codec hypotheses hold for the model's UTF-8 encoder -/
+theorem reparseParams_utf8 (c c' : Cfg) (h1 : c.encode = utf8Enc) (h2 : c'.encode = utf8Enc)
+    (hv : V6Params c c')
+    (hu : ∀ un a, normalizeUsername un = .ok a → percentDecode c' a = un)
+    (hw : ∀ pw b, normalizePassword pw = .ok b → percentDecode c' b = pw) : ReparseParams c c' :=
+  ⟨h1 ▸ utf8Enc_segSafe, h1 ▸ utf8Enc_spaceSafe, h2 ▸ utf8Enc_segSafe, hv, hu, hw⟩
+
+/-- **C10, whole-URL statement** (`norm_idem` and `norm_reparse` together), relative to the named
+parameter hypotheses `ReparseParams` and `HostPrintable`. -/
+theorem C10_full_of_params : (∀ (c c' : Cfg), ReparseParams c c' →
+    ∀ (s : Str) (i : URLInfo) (n : Str), parse c s = .ok i → (netScheme? i.scheme).isSome = true →
+      i.url = .ok n → HostPrintable i →
+      ∃ j, parse c' n = .ok j ∧ j.url = .ok n ∧
+        (j.scheme, j.hostname, j.port, j.path, j.query) = (i.scheme, i.hostname, i.port, i.path, i.query)) := by
+  intro c c' hp s i n hparse hnet hurl hprint
+  cases hns : netScheme? i.scheme with
+  | none => rw [hns] at hnet; cases hnet
+  | some p =>
+    obtain ⟨sch, dp⟩ := p
+    obtain ⟨j, hj, hu, h1, h2, h3, h4, h5⟩ := norm_main c c' hp s i sch dp n hparse hns hurl hprint
+    exact ⟨j, hj, hu, by rw [h1, h2, h3, h4, h5]⟩
+
 end Wpull.Url
